@@ -29,7 +29,7 @@ def run(tier, seed):
     law = tlc.run("Utf8", "INIT Init\nNEXT Next\nINVARIANTS DfaLaw EncLaw Export\nCHECK_DEADLOCK FALSE\n", workers=NCPU, timeout=600)
     if law.violated: raise FrameworkError("Utf8: DFA law violated: %s" % law.cex[:800])
     chk.cov["states"] = law.distinct; chk.cov["transitions"] = max(law.generated, 1)
-    cps = {k: bytes(v) for k, v in law.printed[0]["cps"].items()}
+    cps = {k: bytes(v) for k, v in [p for p in law.printed if isinstance(p, dict) and "cps" in p][0]["cps"].items()}
     g = tlc.run("Utf8Gen", "CONSTANT Sim = FALSE\nINIT GInit\nNEXT GNext\nINVARIANT Emit\nCHECK_DEADLOCK FALSE\n", workers=NCPU, timeout=900, heap="16g")
     gs = tlc.run("Utf8Gen", "CONSTANT Sim = TRUE\nINIT GInit\nNEXT GNext\nINVARIANT Emit\nCHECK_DEADLOCK FALSE\n", workers=4, simulate=(200 if tier == "quick" else 3000), depth=8, seed=seed, timeout=600)
     cases = [p for p in g.printed if "pre" in p]
